@@ -21,3 +21,7 @@ mod c07_local_header;
 mod c07_lru_file;
 #[cfg(kani)]
 mod c07_residency;
+#[cfg(kani)]
+mod c08_storage_records;
+#[cfg(kani)]
+mod c08_index_records;
